@@ -67,7 +67,7 @@ def theorems_of(module_file):
     ns = re.search(r'^namespace ([\w.]+)', src, re.M)
     prefix = ns.group(1) + '.' if ns else ''
     out = []
-    for m in re.finditer(r'^theorem (\w+)', src, re.M):
+    for m in re.finditer(r"^theorem ([\w']+)", src, re.M):
         out.append((prefix + m.group(1), src[:m.start()].count('\n') + 1))
     return out
 
@@ -480,6 +480,35 @@ def run_and_judge(rep, cases, model_every=1, rust=('checked', 'fast')):
             if rep.dist[c['tag']] == 1:
                 rep.sample(f"[{c['tag']}] {c['line']} -> {outs['rust_' + rust[0]][i]}", limit=10)
     return outs
+
+
+def spec_judge(rep, cases):
+    """the crate against the literal Lean transcription of the standard (`Spec/*`, run by the model driver's `spec_*` operations).
+    cases: dicts {rust: line, spec: line, tag, map: f(rust output) -> string the specification must print}.  `Spec/*` is hand-written, fixed
+    and mentions nothing of the crate, so it is an oracle (like the Python reference), not a correspondence partner."""
+    if not cases:
+        return
+    if not MODEL_AVAILABLE:
+        rep.notes.append('literal-specification runs skipped: the model driver does not build on this tree')
+        return
+    routs = {prof: run_stream([RUST[prof]], [c['rust'] for c in cases]) for prof in ('checked', 'fast')}
+    souts = run_stream([MODEL, '--mode', 'release'], [c['spec'] for c in cases])
+    for i, c in enumerate(cases):
+        rep.evaluations += 1
+        rep.count(c['tag'])
+        ok = True
+        for prof in ('checked', 'fast'):
+            a = c['map'](routs[prof][i])
+            if a != souts[i]:
+                ok = False
+                rep.violation('implementation-vs-oracle', [c['rust'], c['spec']],
+                              {'profile': prof, 'tag': c['tag'], 'output': (routs[prof][i] or '')[:300],
+                               'oracle': f'the literal Lean transcription of FIPS 204 (Spec/*) returns {(souts[i] or "")[:80]}'}, True)
+                break
+        if ok:
+            rep.nontrivial.add((c['tag'], hashlib.sha256(c['spec'].encode()).hexdigest()[:16]))
+            if rep.dist[c['tag']] == 1:
+                rep.sample(f"[{c['tag']}] {c['spec'][:200]} -> {(souts[i] or '')[:80]}", limit=12)
 
 
 # ------------------------------------------------------------------------------------------- trace build (C14)
